@@ -143,7 +143,7 @@ func c02Gen(t *rapid.T) c02Case {
 	case 2:
 		c.Result = harness.Decision{Kind: "smtp", Code: 550, Enh: [3]int{5, 7, 1}, Msg: "scripted rejection"}
 	default:
-		c.Result = harness.Decision{Kind: "plain", Msg: "scripted failure"}
+		c.Result = flavoured(t, "result", harness.Decision{Kind: "plain", Msg: "scripted failure"})
 	}
 	stream, moff := c02Stream(c)
 	c.Cuts = genCuts(t, len(stream), interestingPositions(stream, ".\r\n"), "cuts")
